@@ -370,6 +370,20 @@ def padded(sc):
 
 
 def base_scenarios(tier, seed, max_cells=None, halos=True):
+    """thorough = three rotations of the (profile, layers, modes, levels, precision) assignment over the grid x halo table"""
+    if tier != "thorough":
+        return _base_scenarios(tier, seed, max_cells, halos)
+    out, seen = [], set()
+    for off in (0, 1, 2):
+        for sc in _base_scenarios(tier, seed + off, max_cells, halos, profile_seed=seed):
+            key = repr(sorted((k, v) for k, v in sc.items() if k not in ("growth",)))
+            if key not in seen:
+                seen.add(key)
+                out.append(sc)
+    return out
+
+
+def _base_scenarios(tier, seed, max_cells=None, halos=True, profile_seed=None):
     """Concrete (grid, profile, layers, halo, modes, levels, precision) tuples:
     the unrolling bounds of the kind-L checks.  dx != dy everywhere; every halo
     class; mode counts below / at / above the padded size; level sets single /
@@ -383,7 +397,7 @@ def base_scenarios(tier, seed, max_cells=None, halos=True):
         grids = [(ny, nx) for ny in range(1, 9) for nx in range(1, 9) if (ny + 2 * nx) % 3 != 0 or ny == nx]
         pids = ["P1", "P2", "P3", "P4", "P5", "P6"] + ["R%d" % k for k in range(8)]
         ns = [1, 2, 3, 4, 6, 9]
-        cap_cells = 1800
+        cap_cells = 3000
     if max_cells:
         grids = [g for g in grids if g[0] * g[1] <= max_cells]
     out = []
@@ -404,12 +418,13 @@ def base_scenarios(tier, seed, max_cells=None, halos=True):
                 pid = pids[k % len(pids)]
                 n = ns[(k // 2) % len(ns)]
                 k += 1
-                z, prof = profiles(pid, n, seed=seed)
+                pseed = seed if profile_seed is None else profile_seed
+                z, prof = profiles(pid, n, seed=pseed)
                 if growth(z, prof, dx, dy) <= GROWTH_CAP[tier]:
                     break
             else:
                 continue
-            sc = dict(ny=ny, nx=nx, dx=dx, dy=dy, pid=pid, n=n, halo=halo, seed=seed)
+            sc = dict(ny=ny, nx=nx, dx=dx, dy=dy, pid=pid, n=n, halo=halo, seed=pseed)
             nxe, nye, px, py = padded(sc)
             if nxe * nye > cap_cells:
                 continue
